@@ -38,7 +38,7 @@ theorem frame_create (st : State) (m : CreateMsg) (j : Nat) (hj : j < st.core.vi
 /-- **frame, blocks**: an auction with nothing due at the block's time is untouched by the
     block, whatever happens to the other auctions in it (settlement of one auction never
     changes another auction) -/
-theorem frame_block_idle (st : State) (t : Int) (j : Nat) (v : AView)
+theorem frame_block_idle (st : State) (t : Int) (hwf : WF st.core) (j : Nat) (v : AView)
     (hv : st.core.views[j]? = some v) (hidle : idleAt v t = true) :
     (step st (.block t)).2.core.views[j]? = some v ∧
     SameEscrows st.core (step st (.block t)).2.core j := by
